@@ -84,3 +84,77 @@ Proof.
                  [ {| le_ip := V4 169090561; le_all := true; le_ifs := [] |} ]) by (apply H1; right; left; reflexivity).
   destruct X as [X|[]]. discriminate.
 Qed.
+
+(* T3: a configuration that is REFUSED (it has no pool for the announced 10.20.30.1) stays pending: the
+   API server holds it, the speaker keeps running - and announcing under - the previous one *)
+Definition w_cidr2 : prefix := {| pfam := F4; pbase := 3232235776; plen := 24 |}.    (* 192.168.0.0/24 *)
+Definition w_cfg_other : config :=
+  {| cf_pools := [ {| pl_cidrs := [w_cidr2]; pl_bgp := []; pl_l2 := [ {| la_nodes := [0]; la_ifs := []; la_all := true |} ] |} ]; cf_peers := [] |}.
+Definition pending_history : list sev :=
+  [ ENode (w_node 0);
+    ECfg (w_cfg [ {| la_nodes := [0]; la_ifs := []; la_all := true |} ]);
+    ESvc 0 (Some (w_svc 169090561));
+    ECfg w_cfg_other ].
+
+Lemma pending_refusal_refuted :
+  let ws := srun env_id (Some [0]) pending_history in
+  let a := api_run (Some [0]) pending_history in
+  forallb esvc_ok pending_history = true /\ final_cfg_ok env_id (snd ws) = true /\
+  stale_after env_id ([], sinit (Some [0])) false pending_history = false /\
+  s_nodes (snd ws) = api_nodes a /\ s_cfg (snd ws) <> api_cfg a /\
+  s_l2 (snd ws) 0 <> None /\ s_l2 (fresh_cluster env_id a (fst ws)) 0 = None /\
+  ~ announced_equiv (snd ws) (fresh_cluster env_id a (fst ws)).
+Proof.
+  cbv zeta. split; [vm_compute; reflexivity|]. split; [vm_compute; reflexivity|]. split; [vm_compute; reflexivity|].
+  split; [vm_compute; reflexivity|]. split; [vm_compute; discriminate|]. split; [vm_compute; discriminate|].
+  split; [vm_compute; reflexivity|]. intros [H _]. specialize (H 0). vm_compute in H. exact H.
+Qed.
+
+(* a Node object is deleted; the speaker never forgets a node.  Memberlist disabled: the deleted node 2 stays a
+   candidate of the election and (smallest hash) its winner, so node 0 keeps silent; a fresh speaker on the
+   cluster's nodes {0, 1} announces *)
+Definition env_del : env :=
+  {| en_me := 0; en_ignore := false; en_ifs := [0; 1]; en_hash := fun _ n => match n with 2 => 0 | 0 => 1 | _ => 2 end |}.
+Definition deleted_node_history : list sev :=
+  [ ENode (w_node 0); ENode (w_node 1); ENode (w_node 2);
+    ECfg (w_cfg [ {| la_nodes := [0; 1; 2]; la_ifs := []; la_all := true |} ]);
+    ESvc 0 (Some (w_svc 169090561));
+    ENodeDel 2;
+    EResync ].
+
+Lemma deleted_node_refuted :
+  let ws := srun env_del None deleted_node_history in
+  let a := api_run None deleted_node_history in
+  forallb esvc_ok deleted_node_history = true /\ final_cfg_ok env_del (snd ws) = true /\
+  stale_after env_del ([], sinit None) false deleted_node_history = false /\
+  s_cfg (snd ws) = api_cfg a /\ s_nodes (snd ws) <> api_nodes a /\
+  s_l2 (snd ws) 0 = None /\ s_l2 (fresh_cluster env_del a (fst ws)) 0 <> None /\
+  ~ announced_equiv (snd ws) (fresh_cluster env_del a (fst ws)).
+Proof.
+  cbv zeta. split; [vm_compute; reflexivity|]. split; [vm_compute; reflexivity|]. split; [vm_compute; reflexivity|].
+  split; [vm_compute; reflexivity|]. split; [vm_compute; discriminate|]. split; [vm_compute; reflexivity|].
+  split; [vm_compute; discriminate|]. intros [H _]. specialize (H 0). vm_compute in H. exact H.
+Qed.
+
+(* joint satisfiability of all hypotheses with something announced on both protocols: a BGP peer with a node
+   selector, one BGP advertisement (/24, localpref 100), a relabel that opens the session; then the node
+   becomes network-unavailable and everything is withdrawn *)
+Definition w_badv : badv := {| ba_agg4 := 24; ba_agg6 := 128; ba_lp := 100; ba_comms := [1]; ba_nodes := [0]; ba_peers := [] |}.
+Definition w_cfg_bgp : config :=
+  {| cf_pools := [ {| pl_cidrs := [w_cidr]; pl_bgp := [w_badv]; pl_l2 := [ {| la_nodes := [0]; la_ifs := []; la_all := true |} ] |} ];
+     cf_peers := [ {| pc_name := 1; pc_sels := [[(7, 7)]]; pc_attr := 0; pc_ref := 0 |} ] |}.
+Definition w_lab (l : list (N * N)) (un : bool) : nodeinfo := {| nd_id := 0; nd_unavail := un; nd_excl := false; nd_labels := l |}.
+Definition bgp_history : list sev :=
+  [ ENode (w_lab [] false); ECfg w_cfg_bgp; ESvc 0 (Some (w_svc 169090561)); ENode (w_lab [(7, 7)] false) ].
+
+Lemma joint_nonvacuous :
+  let ws := srun env_id (Some [0]) bgp_history in
+  let a := api_run (Some [0]) bgp_history in
+  forallb esvc_ok bgp_history = true /\ final_cfg_ok env_id (snd ws) = true /\
+  stale_after env_id ([], sinit (Some [0])) false bgp_history = false /\
+  s_cfg (snd ws) = api_cfg a /\ s_nodes (snd ws) = api_nodes a /\
+  s_l2 (snd ws) 0 <> None /\ bs_ads (s_bgp (snd ws)) 0 <> None /\
+  option_map (@length adv) (sess_of (s_bgp (snd ws)) 1) = Some 1%nat /\
+  let ws' := srun env_id (Some [0]) (bgp_history ++ [ENode (w_lab [(7, 7)] true)]) in
+  s_l2 (snd ws') 0 = None /\ bs_ads (s_bgp (snd ws')) 0 = None /\ sess_of (s_bgp (snd ws')) 1 = Some [].
+Proof. vm_compute. repeat split; try discriminate. Qed.
